@@ -67,6 +67,9 @@ class InElastic(_Simu):
 
         self._Solver_Set_Newton_Raphson_Algorithm(absTol, relTol, incTol, maxIter)
 
+        # the stiffness comes from the elastic law held by the behavior: look for its modifications too
+        model.elastic._Add_observer(self)
+
         self.__dt = 0.0
         self.__z: dict["ElemType", FeArray] = {}
         self.__zOld: dict["ElemType", FeArray] = {}
